@@ -83,6 +83,28 @@ Proof.
 Qed.
 Print Assumptions T17_locked_pool_readonly.
 
+(** T17_getrange: RangeTokenMap::getRange (functional model with the lazy publication) never changes the positive slot of
+    a keyword, keeps "complement slot = complement of the positive slot", and once any thread has asked for the
+    complement, that slot holds exactly the complement of the positive token -- for every order and number of requests
+    (the slow path runs under the map's mutex, so requests are serialised: T17_lockset). *)
+Theorem T17_getrange : forall (T : Type) (compl : T -> T) (e : slots T) (reqs : list bool),
+  slots_wf T compl e ->
+  s_pos T (run_requests T compl e reqs) = s_pos T e /\
+  slots_wf T compl (run_requests T compl e reqs) /\
+  (forall p, s_pos T e = Some p -> In true reqs -> s_neg T (run_requests T compl e reqs) = Some (compl p)).
+Proof.
+  intros T compl e reqs W. split; [apply run_requests_pos|split; [apply run_requests_wf; exact W|]].
+  intros p Hp Hin. apply run_requests_neg; assumption.
+Qed.
+Print Assumptions T17_getrange.
+
+(** publishing into the wrong slot (the default argument of setRangeToken) is NOT what the model does: it would change
+    the positive slot *)
+Example getrange_wrong_slot_differs :
+  let e := mkSlots nat (Some 5) None in
+  s_pos nat (fst (get_range nat (fun n => 100 - n) e true)) = Some 5 /\ s_neg nat (fst (get_range nat (fun n => 100 - n) e true)) = Some 95.
+Proof. split; reflexivity. Qed.
+
 (** ------------------------------------------------------------------------------------------------------------
     Non-vacuity and defect witnesses (bounded exhaustive exploration of the executable semantics, by vm_compute;
     these are EXAMPLES about 2-3 threads, not the unbounded claims above). *)
